@@ -23,7 +23,8 @@ import (
 // (concurrent harness: the schedule cannot be forced on the native build by this runner; the
 // trace is the model's, rendered access by access in the replay file).
 func replay(prop string, r *sym.CaseResult, v *sym.ViolationInfo, path string) string {
-	if len(v.Sched) > 0 {
+	concurrent := len(v.Sched) > 0
+	if concurrent && (!v.Aligned || len(v.Steps) == 0) {
 		return "model-only"
 	}
 	work, err := os.MkdirTemp(filepath.Join(*verifDir, ".work"), "replay-")
@@ -34,7 +35,11 @@ func replay(prop string, r *sym.CaseResult, v *sym.ViolationInfo, path string) s
 			return "diverged"
 		}
 	}
-	defer os.RemoveAll(work)
+	if os.Getenv("VERIF_KEEP") == "" {
+		defer os.RemoveAll(work)
+	} else {
+		fmt.Fprintln(os.Stderr, "replay work dir kept:", work)
+	}
 	var sb strings.Builder
 	sb.WriteString("//go:build verif && verifreplay\n\npackage shmipc\n\nimport \"testing\"\n\nfunc TestVerifReplay(t *testing.T) {\n")
 	sb.WriteString("\tvfInputVec = []uint64{")
@@ -45,6 +50,29 @@ func replay(prop string, r *sym.CaseResult, v *sym.ViolationInfo, path string) s
 		fmt.Fprintf(&sb, "%d", in.Val)
 	}
 	sb.WriteString("}\n")
+	if concurrent {
+		sb.WriteString("\tvfSchedule = [][]int{")
+		for _, q := range v.Quota {
+			sb.WriteString("{")
+			for _, n := range q {
+				fmt.Fprintf(&sb, "%d,", n)
+			}
+			sb.WriteString("},")
+		}
+		sb.WriteString("}\n\tvfFinished = []bool{")
+		for _, f := range v.Finished {
+			fmt.Fprintf(&sb, "%v,", f)
+		}
+		sb.WriteString("}\n\tvfStepsOf = [][]vfStep{")
+		for _, st := range v.Steps {
+			sb.WriteString("{")
+			for _, x := range st {
+				fmt.Fprintf(&sb, "{%q, %d},", x.File, x.Line)
+			}
+			sb.WriteString("},\n\t\t")
+		}
+		sb.WriteString("}\n")
+	}
 	for _, s := range r.Shape {
 		kv := strings.SplitN(s, "=", 2)
 		fmt.Fprintf(&sb, "\tvfShapeMap[%q] = %s\n", kv[0], kv[1])
@@ -68,6 +96,14 @@ func replay(prop string, r *sym.CaseResult, v *sym.ViolationInfo, path string) s
 		os.WriteFile(strings.TrimSuffix(path, ".json")+".native.txt", []byte("stub overlay failed: "+err.Error()), 0o644)
 		return "diverged"
 	}
+	if concurrent {
+		// every statement of the repository's sources and of the harnesses becomes a gate of the
+		// controlled scheduler
+		if err := gateOverlay(work, ov["Replace"]); err != nil {
+			os.WriteFile(strings.TrimSuffix(path, ".json")+".native.txt", []byte("gate overlay failed: "+err.Error()), 0o644)
+			return "model-only"
+		}
+	}
 	ob, _ := json.Marshal(ov)
 	ovFile := filepath.Join(work, "overlay.json")
 	os.WriteFile(ovFile, ob, 0o644)
@@ -78,10 +114,22 @@ func replay(prop string, r *sym.CaseResult, v *sym.ViolationInfo, path string) s
 	txt := string(out)
 	os.WriteFile(strings.TrimSuffix(path, ".json")+".native.txt", out, 0o644)
 	if strings.Contains(txt, "VFREPLAY:") {
+		if concurrent {
+			// the statement-level scheduler could not follow the model's schedule (a switch point
+			// that has no gate): the counterexample stays a model-level one
+			return "model-only"
+		}
 		return "diverged"
 	}
 	if strings.Contains(txt, "VFASSERT-FAIL: "+v.ID) {
 		return "confirmed"
+	}
+	// the native run stops at the first assertion that fails in program order; the model may have
+	// singled out another obligation of the same run
+	for _, id := range v.Also {
+		if strings.Contains(txt, "VFASSERT-FAIL: "+id) {
+			return "confirmed"
+		}
 	}
 	if (strings.HasPrefix(v.ID, "nopanic:") || strings.HasPrefix(v.ID, "rawptr:")) && strings.Contains(txt, "panic:") && !strings.Contains(txt, "VFASSERT-FAIL") {
 		return "confirmed"
@@ -230,6 +278,108 @@ func stubOverlay(work, harness string, replace map[string]string) error {
 			}
 			replace[fn] = out
 		}
+	}
+	return nil
+}
+
+// gateOverlay writes instrumented copies of the repository's non-test sources and of the harness
+// files: a call vfGate(file, firstLine, lastLine) in front of every statement.
+func gateOverlay(work string, replace map[string]string) error {
+	type src struct{ virtual, real string }
+	var files []src
+	ents, err := os.ReadDir(*repoDir)
+	if err != nil {
+		return err
+	}
+	for _, en := range ents {
+		n := en.Name()
+		if !strings.HasSuffix(n, ".go") || strings.HasSuffix(n, "_test.go") || strings.HasPrefix(n, "zz_verif_") {
+			continue
+		}
+		switch n {
+		case "buffer_manager.go", "buffer_slice.go", "queue.go", "session.go", "protocol_manager.go", "stream.go", "buffer.go":
+			virtual := filepath.Join(*repoDir, n)
+			real := virtual
+			if r, ok := replace[virtual]; ok {
+				real = r
+			}
+			files = append(files, src{virtual, real})
+		}
+	}
+	for virtual, real := range replace {
+		b := filepath.Base(virtual)
+		if strings.HasPrefix(b, "zz_verif_h") {
+			files = append(files, src{virtual, real})
+		}
+	}
+	fset := token.NewFileSet()
+	for _, f := range files {
+		af, err := parser.ParseFile(fset, f.real, nil, parser.ParseComments)
+		if err != nil {
+			return err
+		}
+		base := filepath.Base(f.virtual)
+		line := func(p token.Pos) int { return fset.Position(p).Line }
+		gate := func(s ast.Stmt) ast.Stmt {
+			lo, hi := line(s.Pos()), line(s.End())
+			switch x := s.(type) {
+			case *ast.IfStmt:
+				hi = line(x.Body.Lbrace)
+			case *ast.ForStmt:
+				hi = line(x.Body.Lbrace)
+			case *ast.RangeStmt:
+				hi = line(x.Body.Lbrace)
+			case *ast.SwitchStmt:
+				hi = line(x.Body.Lbrace)
+			case *ast.TypeSwitchStmt:
+				hi = line(x.Body.Lbrace)
+			case *ast.SelectStmt:
+				hi = line(x.Body.Lbrace)
+			case *ast.BlockStmt, *ast.LabeledStmt, *ast.DeclStmt, *ast.EmptyStmt, *ast.CaseClause, *ast.CommClause:
+				return nil
+			}
+			return &ast.ExprStmt{X: &ast.CallExpr{Fun: ast.NewIdent("vfGate"), Args: []ast.Expr{
+				&ast.BasicLit{Kind: token.STRING, Value: fmt.Sprintf("%q", base)},
+				&ast.BasicLit{Kind: token.INT, Value: fmt.Sprint(lo)},
+				&ast.BasicLit{Kind: token.INT, Value: fmt.Sprint(hi)}}}}
+		}
+		instr := func(list []ast.Stmt) []ast.Stmt {
+			var out []ast.Stmt
+			for _, s := range list {
+				if g := gate(s); g != nil {
+					out = append(out, g)
+				}
+				out = append(out, s)
+			}
+			return out
+		}
+		ast.Inspect(af, func(n ast.Node) bool {
+			switch x := n.(type) {
+			case *ast.BlockStmt:
+				x.List = instr(x.List)
+			case *ast.CaseClause:
+				x.Body = instr(x.Body)
+			case *ast.CommClause:
+				x.Body = instr(x.Body)
+			}
+			return true
+		})
+		var buf bytes.Buffer
+		// comments are dropped (positions of inserted nodes are invalid and would scramble them)
+		af.Comments = nil
+		if err := printer.Fprint(&buf, fset, af); err != nil {
+			return err
+		}
+		// keep the build constraint of harness files
+		out := buf.Bytes()
+		if strings.HasPrefix(base, "zz_verif_h") && !bytes.Contains(out[:min(len(out), 200)], []byte("//go:build")) {
+			out = append([]byte("//go:build verif\n\n"), out...)
+		}
+		dst := filepath.Join(work, "gated_"+base)
+		if err := os.WriteFile(dst, out, 0o644); err != nil {
+			return err
+		}
+		replace[f.virtual] = dst
 	}
 	return nil
 }
